@@ -39,6 +39,10 @@ pub struct Profile {
     /// empty namespace name, no "--" in comments); C10's repair clause needs this, the others do not
     #[serde(default)]
     pub representable_ns_only: bool,
+    /// per-step probability (percent) of a scripted multi-call motif (a burst of related calls
+    /// placed right after each other: faults and repairs land on state that is still in flight)
+    #[serde(default)]
+    pub motif_pct: u32,
 }
 
 impl Profile {
@@ -68,6 +72,7 @@ impl Profile {
             stall_pm: *rng.pick(&[0u32, 0, 30, 100]),
             locality_pct: *rng.pick(&[0u32, 50, 80, 95]),
             representable_ns_only: false,
+            motif_pct: 0,
         }
     }
 }
@@ -253,7 +258,59 @@ fn entry_mode(rng: &mut Rng) -> EntryMode {
 }
 
 /// existing key of the element with some probability, else a pool key
+/// namespace names bound to a non-empty prefix in scope at `e` (nearest binding per prefix)
+pub fn scope_bound_uris(m: &Model, e: Lid) -> Vec<String> {
+    let mut seen: Vec<String> = vec![];
+    let mut out: Vec<String> = vec![];
+    let mut cur = Some(e);
+    while let Some(c) = cur {
+        for nl in m.n(c).ns.iter() {
+            if let crate::model::Kind::Ns(p, u) = &m.n(*nl).kind {
+                if seen.contains(p) {
+                    continue;
+                }
+                seen.push(p.clone());
+                if !p.is_empty() && !u.is_empty() && !out.contains(u) {
+                    out.push(u.clone());
+                }
+            }
+        }
+        cur = m.n(c).parent;
+    }
+    out
+}
+
+/// repair motifs (C10): repair a whole tree, add something in a namespace nobody declares below
+/// a nested element, repair that element; or the same with a subtree moved away in between
+pub fn gen_motif(m: &Model, rng: &mut Rng, home: &[Lid]) -> Option<Vec<Op>> {
+    let p = Picker::new(m, home, 50);
+    let e = p.of(rng, |l| m.k(l) == K::Elem && m.n(l).parent.is_some() && m.n(l).kids.iter().any(|k| m.k(*k) == K::Elem))?;
+    let root = m.root_of(e);
+    let fresh = Nm::new(rng.pick_str(&LOCALS), rng.pick_str(&URIS));
+    let mut ops = vec![Op::CreateMissingPrefixes { n: root }];
+    match rng.below(3) {
+        0 => ops.push(Op::AppendElement { p: e, name: fresh }),
+        1 => ops.push(Op::SetAttribute { e, name: fresh, value: "v".into() }),
+        _ => {
+            let kid = *rng.pick(&m.n(e).kids);
+            ops.push(Op::AppendElement { p: if m.k(kid) == K::Elem { kid } else { e }, name: fresh });
+        }
+    }
+    ops.push(Op::CreateMissingPrefixes { n: e });
+    if rng.pct(40) {
+        ops.push(Op::CreateMissingPrefixes { n: root });
+    }
+    Some(ops)
+}
+
 fn attr_key(m: &Model, e: Lid, rng: &mut Rng) -> Nm {
+    if rng.pct(25) {
+        // a name in a namespace that has a usable prefix in scope: the element stays serialisable
+        let bound = scope_bound_uris(m, e);
+        if let Some(u) = rng.pick_opt(&bound) {
+            return Nm::new(rng.pick_str(&LOCALS), u);
+        }
+    }
     if rng.pct(6) {
         // the built-in names get special treatment in places
         return Nm::new(if rng.pct(70) { "id" } else { "space" }, "http://www.w3.org/XML/1998/namespace");
@@ -422,6 +479,14 @@ fn try_gen_op(m: &Model, rng: &mut Rng, prof: &Profile, home: &[Lid]) -> Option<
             let n = p.any(rng)?;
             if m.subtree(n).len() + n_live > prof.max_nodes + 20 {
                 return None;
+            }
+            if rng.pct(25) {
+                // a nested element whose ancestors declare something: the case clone_with_prefixes is for
+                if let Some(e) = p.of(rng, |l| {
+                    m.k(l) == K::Elem && m.n(l).parent.map(|a| !scope_bound_uris(m, a).is_empty()).unwrap_or(false)
+                }) {
+                    return Some(Op::CloneWithPrefixes { n: e });
+                }
             }
             Some(if rng.pct(70) { Op::CloneNode { n } } else { Op::CloneWithPrefixes { n } })
         }
